@@ -118,17 +118,62 @@ Qed.
 Lemma slice3_open_time : forall r c (f : frame3), slice3 (None, None) r c f = map (slice2 r c) f.
 Proof. intros. unfold slice3. rewrite slice1_open. reflexivity. Qed.
 
-(* single readout, 2D target range: the term computed by the code is the declared term *)
-Theorem term_coded_is_declared : forall c k sim tgt tr tc,
+(* the term computed by the code for pair k (result restricted to the result range, target restricted
+   at construction, weight k restricted with the target range) is the declared term *)
+Theorem term_coded_is_declared : forall c k sim tgt,
+  term_coded c (fc_w c) k sim (let '(tm, tr, tc) := out_slices (fc_trng c) in slice3 tm tr tc tgt)
+  = term_declared c k sim tgt.
+Proof.
+  intros c k sim tgt. unfold term_coded, term_declared, lift_t, weight_coded, weight_declared, lift_t.
+  destruct (out_slices (fc_orng c)) as [[ot orow] ocol].
+  destruct (out_slices (fc_trng c)) as [[tm tr] tc]. reflexivity.
+Qed.
+
+(* 2-D target range: the time axis of the target is left whole *)
+Corollary term_coded_is_declared_2d : forall c k sim tgt tr tc,
   fc_trng c = FR2 tr tc ->
   term_coded c (fc_w c) k sim (map (slice2 tr tc) tgt) = term_declared c k sim tgt.
 Proof.
-  intros c k sim tgt tr tc E. unfold term_coded, term_declared, lift_t, weight_coded, weight_declared, lift_t.
-  rewrite E. cbn [out_slices].
-  destruct (out_slices (fc_orng c)) as [[ot orow] ocol]. cbv zeta.
-  rewrite !slice3_open_time.
-  destruct (fc_w c) as [|ws|fs]; try reflexivity.
-  destruct (nth_error fs k); try reflexivity. rewrite slice3_open_time. reflexivity.
+  intros c k sim tgt tr tc E. rewrite <- term_coded_is_declared. rewrite E. cbn [out_slices].
+  rewrite slice3_open_time. reflexivity.
+Qed.
+
+(* ------------------------------------------------------------------ the problem object: whenever it
+   yields a fitness at all, that fitness is the declared figure of merit *)
+Lemma declared_from_map : forall {A B B'} (t1 : nat -> A -> B' -> fres) (t2 : nat -> A -> B -> fres) (f : B -> B'),
+  (forall k s t, t1 k s (f t) = t2 k s t) ->
+  forall sims tgts k acc, declared_from t1 sims k (map f tgts) acc = declared_from t2 sims k tgts acc.
+Proof.
+  intros A B B' t1 t2 f H sims tgts. induction tgts as [|t r IH]; intros k acc; [reflexivity|].
+  cbn [map declared_from]. destruct (pick_sim sims k) as [s|]; [|reflexivity].
+  rewrite H. destruct (t2 k s t); try reflexivity. apply IH.
+Qed.
+
+(* with the weights configuration of the tree as repaired (weights kept for single- and multi-readout
+   targets, scalar weights of the target region's shape, 3-D target ranges indexed by 'readout_time'):
+   2-D and 3-D target ranges, no target without a processor.  The three outcomes: refused at construction / outside the model (the restricted
+   result and target have different shapes) / the declared sum over ALL targets of the configured
+   function on result[result range], target[target range] with weight k in term k. *)
+Theorem model_fit_is_declared : forall ck cl c sims,
+  (length (fc_tgts c) <= length sims)%nat ->
+  model_fit ck cl coded_wconf c sims = OCtor \/
+  model_fit ck cl coded_wconf c sims = OUndef \/
+  model_fit ck cl coded_wconf c sims = fobs_of (declared_sum (term_declared c) sims (fc_tgts c)).
+Proof.
+  intros ck cl c sims Hl. unfold model_fit.
+  destruct (is3d (fc_trng c) && negb (wc_time_key coded_wconf && fc_multi c)); auto.
+  pose proof (term_coded_is_declared c) as HT.
+  destruct (out_slices (fc_trng c)) as [[tm tr] tc].
+  destruct (if fc_bypass c then Accept else ctor_check ck cl c sims); auto.
+  destruct (out_slices (fc_orng c)) as [[ot orow] ocol].
+  replace (weights_kept coded_wconf c) with (fc_w c)
+    by (unfold weights_kept, coded_wconf; cbn; destruct (fc_multi c); reflexivity).
+  cbn [wc_shape coded_wconf].
+  match goal with |- context [if ?b then OUndef else _] => destruct b end; auto.
+  right. right. f_equal.
+  rewrite loop_is_declared by (rewrite map_length; exact Hl).
+  unfold declared_sum. apply declared_from_map.
+  intros k s t. apply HT.
 Qed.
 
 (* ------------------------------------------------------------------ champions *)
